@@ -449,8 +449,9 @@ def _unescape_attribute(value: str) -> str:
             return chr(int(ref[1:]))
         return _XML_ENTITIES.get(ref, m.group(0))
 
-    # literal whitespace is normalized to spaces before references are expanded
-    value = re.sub(r'[\t\n\r]', ' ', value)
+    # literal whitespace is normalized to spaces (a CR LF pair counts as one
+    # line end) before references are expanded
+    value = re.sub(r'\r\n?|[\t\n]', ' ', value)
     return re.sub(r'&(#x[0-9a-fA-F]+|#[0-9]+|\w+);', replace, value)
 
 
